@@ -153,6 +153,7 @@ def stepWN (env : Env) (n : Nat) (w : World) : Op → WRet
   | .log i => logWN env n i w
   | .complete => completeW env w
   | .remove hid k => removeW env hid k w
+  | .removeAll k => removeAllW env k w
 
 /-- a whole history with registry-level re-entrancy (see `runW`) -/
 def runWN (env : Env) (n : Nat) : List Op → World → World × List Event × List Res
